@@ -97,6 +97,8 @@ pub struct RunOutcome {
     pub diverged_at: Option<u64>,
     /// simulated task that panicked (usize::MAX if none)
     pub panic_task: usize,
+    /// task that was running alone (all others frozen) when the run ended
+    pub solo_task: Option<usize>,
 }
 
 // ------------------------------------------------------------------- shared run state
@@ -1245,6 +1247,7 @@ fn collect(core: &mut Option<Core>, end_hint: Option<End>) -> RunOutcome {
         }
     }
     let mut stats = RunStats::default();
+    let solo_task = rt::with(|r| r.solo.get());
     let (mem, solo_blocked) = rt::with(|r| {
         stats.steps = r.steps.get();
         stats.task_steps = (0..core.max_tasks_seen.max(1)).map(|i| r.task_steps[i].get()).collect();
@@ -1288,6 +1291,7 @@ fn collect(core: &mut Option<Core>, end_hint: Option<End>) -> RunOutcome {
         harness_errors,
         diverged_at: core.diverged_at,
         panic_task: PANIC_TASK.with(|t| t.replace(usize::MAX)),
+        solo_task,
     }
 }
 
